@@ -22,7 +22,7 @@ KNOWN_TEXT = {
 
 def py_of(case):
     return ("import gfapy\ng=gfapy.Gfa(version=%r,vlevel=%d)\nfor op in %r:\n  try:\n    if op[0]=='add': g.add_line(op[1])\n"
-            "    elif op[0]=='rm': g.rm(op[1])\n    else: g.try_get_line(op[1]).name=op[2]\n"
+            "    elif op[0]=='rm': g.rm(op[1])\n    elif op[0]=='rmline': g.rm([x for x in g.lines if str(x)==op[1]][0])\n    else: g.try_get_line(op[1]).name=op[2]\n"
             "  except gfapy.Error as e: print(op, type(e).__name__)\nprint(g)" % (case['version'], case['vlevel'], case['ops']))
 
 
@@ -63,6 +63,18 @@ CORPUS = [
     ('gfa2', _adds(['S\tA\t10\t*', 'S\tB\t10\t*', 'E\te1\tA+\tB+\t7\t10$\t0\t3\t*', 'G\tg1\tA+\tB-\t5\t*', 'U\tu1\tA B', 'O\to1\tA+ B+'])
      + [('rename', 'e1', '*'), ('rename', 'g1', '*'), ('rename', 'u1', '*'), ('rename', 'o1', '*'),
         ('add', 'G\te1\tB+\tA-\t1\t*'), ('add', 'U\tg1\tA'), ('rename', 'A', 'u1')]),
+    # groups of the two kinds do not merge with each other; groups of one kind do
+    ('gfa2', _adds(['S\tA\t10\t*', 'S\tB\t10\t*', 'U\tg\tA B', 'O\tg\tA+', 'O\to\tA+', 'U\to\tA', 'U\tg\tB\txx:i:1', 'O\to\tA-',
+                    'E\tg\tA+\tB+\t7\t10$\t0\t3\t*', 'S\to\t5\t*'])),
+    # a name first met in a group, then a fragment on it, then the segment itself; fragments go by instance
+    ('gfa2', _adds(['U\tu1\tx y', 'F\tx\tr1+\t0\t3\t0\t3\t*', 'F\tx\tr2-\t0\t3\t0\t3\t*', 'S\tx\t10\t*', 'F\ty\tr1+\t0\t3\t0\t3\t*'])
+     + [('rmline', 'F\tx\tr1+\t0\t3\t0\t3\t*'), ('rm', 'x'), ('rmline', 'F\ty\tr1+\t0\t3\t0\t3\t*'), ('add', 'S\ty\t10\t*')]),
+    ('gfa2', _adds(['S\tA\t10\t*', 'S\tB\t10\t*', 'F\tA\tr1+\t0\t3\t0\t3\t*', 'F\tB\tr1-\t0\t3\t0\t3\t*', 'F\tA\tr2+\t0\t3\t0\t3\t*',
+                    'E\t*\tA+\tB+\t7\t10$\t0\t3\t*', 'G\t*\tA+\tB-\t5\t*'])
+     + [('rmline', 'F\tA\tr1+\t0\t3\t0\t3\t*'), ('rmline', 'E\t*\tA+\tB+\t7\t10$\t0\t3\t*'), ('rmline', 'G\t*\tA+\tB-\t5\t*'),
+        ('rmline', 'nothing like this'), ('rm', 'B')]),
+    ('gfa1', _adds(['S\tA\t*', 'S\tB\t*', 'L\tA\t+\tB\t-\t*', 'C\tA\t+\tB\t+\t0\t*', 'P\tp\tA+,B-\t*'])
+     + [('rmline', 'C\tA\t+\tB\t+\t0\t*'), ('rmline', 'L\tA\t+\tB\t-\t*'), ('rmline', 'L\tA\t+\tB\t-\t*')]),
     # lines that arrive before the segments they mention, then a rename of such a segment
     ('gfa1', _adds(['C\tA\t+\tB\t+\t0\t*', 'L\tA\t+\tB\t-\t*', 'P\tp\tA+,B-\t*', 'S\tA\t*', 'S\tB\t*']) + [('rename', 'A', 'n1'), ('rename', 'B', 'n2')]),
     ('gfa1', _adds(['C\tA\t-\tB\t+\t2\t3M', 'S\tB\t*', 'S\tA\t*']) + [('rename', 'B', 'n1'), ('rm', 'A')]),
